@@ -93,10 +93,11 @@ def a_layouts(chk, oracles_, texts, per_text, wall=None):
     T = X.tokenize.Token
     cases = []
     for t in texts:
-        try:
-            toks = [k for k in X.tokenize.generate_tokens(t) if k.type not in (T.NEWLINE, T.NL, T.ENDMARKER, T.INDENT, T.DEDENT, T.WS, T.COMMENT)]
-        except Exception:  # noqa: BLE001
+        from symx.oracles import safe_tokens
+        toks = safe_tokens(X, t)
+        if toks is None:
             continue
+        toks = [k for k in toks if k.type not in (T.NEWLINE, T.NL, T.ENDMARKER, T.INDENT, T.DEDENT, T.WS, T.COMMENT)]
         offs = []
         lines = t.splitlines(keepends=True)
         starts = [0]
@@ -145,7 +146,7 @@ def k0_texts(chk, oracles_, texts, name, wall=None, modes=("exec",), vac=("ok",)
 
 INDENTS = ["", "  ", "    ", "      ", "\t", " \t", "        ", "\x0c  "]
 BODIES = ["if x:", "y", "else:", "# c", ""]
-CORE_OPTS = [(i, b) for i in ("", "  ", "    ", "\t") for b in ("if x:", "y")]
+CORE_OPTS = [(i, b) for i in ("", "  ", "    ", "\t", "\t\t") for b in ("if x:", "y")]
 RICH_OPTS = [(i, b) for i in INDENTS for b in BODIES]
 
 
@@ -164,3 +165,30 @@ def indent_skeleton(chk, oracles_, nlines, opts, wall=None, tokens_only=False, l
     chk.extra[f"indent_skeleton_{label}_{nlines}"] = total
     chk.run(f"A indentation skeleton ({label}) {nlines} lines", harness.A_harness(textfn, path_oracles=oracles_, do_tokens=tokens_only, do_parse=not tokens_only),
             f"all {total} programs of {nlines} lines over {len(opts)} (indentation, body) options", wall=wall, vacuity=("ok",))
+
+
+def token_deletions(texts, per_text=0, rng=None):
+    """every text obtained by deleting one token of a seed (the third single-token mutation besides substitution and insertion)"""
+    from symx.oracles import safe_tokens
+    X = repo().real
+    T = X.tokenize.Token
+    out = []
+    for t in texts:
+        toks = safe_tokens(X, t)
+        if toks is None:
+            continue
+        lines = t.splitlines(keepends=True)
+        starts = [0]
+        for ln in lines:
+            starts.append(starts[-1] + len(ln))
+        spans = []
+        for k in toks:
+            if k.type in (T.NEWLINE, T.NL, T.ENDMARKER, T.INDENT, T.DEDENT, T.WS, T.COMMENT) or k.start[0] != k.end[0] or k.start[0] > len(lines):
+                continue
+            a = starts[k.start[0] - 1] + k.start[1]
+            spans.append((a, a + len(k.string)))
+        if per_text and rng is not None and len(spans) > per_text:
+            spans = rng.sample(spans, per_text)
+        for a, b in spans:
+            out.append(t[:a] + t[b:])
+    return list(dict.fromkeys(out))
